@@ -177,8 +177,24 @@ func vfRefValue(r *LogValueRef, l *types.Log) (val []byte, ok bool) {
 	n := uint64(len(l.Data))
 	start := (r.Offset - 4) * 32
 	if !r.Dynamic {
-		if start+32 > n {
-			return nil, false // truncated static word: zero padding, covered by the total harness
+		if start+32 > n || start+32 < start {
+			if !vfTruncatedStatic {
+				return nil, false
+			}
+			// documented on GetValue: a referenced word that exceeds the data is zero-padded on the
+			// right to its full length (byte i of the word is data[start+i] if that exists, else 0)
+			if vfParam("truncated_shapes", 0) == 1 && start < n {
+				// quick tier: 1, 2 or 31 bytes of the word are present (or none); the thorough tier
+				// explores every count
+				vfAssume(n-start <= 2 || n-start == 31)
+			}
+			w := make([]byte, 32)
+			for i := uint64(0); i < 32; i++ {
+				if start+i >= start && start+i < n {
+					w[i] = l.Data[start+i]
+				}
+			}
+			return w, true
 		}
 		return l.Data[start : start+32], true
 	}
@@ -216,7 +232,12 @@ func vfRefPredicate(p *ValuePredicate, val []byte) bool {
 	return c >= 0
 }
 
+// vfTruncatedStatic: the reference also covers static data words that lie partly or wholly beyond
+// the end of the data (zero padding on the right, as documented on GetValue).
+var vfTruncatedStatic bool
+
 func H_C17_match_reference() {
+	vfTruncatedStatic = vfParam("truncated", 0) == 1
 	dataMax := vfParam("data", 96)
 	vfAllocBound(dataMax + 64)
 	d := vfValidDefinition(vfParam("preds", 1), vfParam("mode", 0))
